@@ -229,7 +229,7 @@ def explore_part(ctx, spec, outcome, rng):
     nscen, max_states = spec.get("explore", {}).get(tier, (0, 0))
     midx = MONITOR_IDX.get(pid)
     fields = set(spec.get("resync_fields", set())) | {f for f in spec.get("traj_fields", set()) if f in dyn.STEP_FIELDS}
-    viol, tot_states, tot_trans, complete = [], 0, 0, 0
+    viol, tot_states, tot_trans, complete, revisits = [], 0, 0, 0, 0
     for n in range(nscen):
         if n == 0:
             sc_ = scen.shipped_scenario("tiny")
@@ -241,11 +241,12 @@ def explore_part(ctx, spec, outcome, rng):
             sd = scen.explore_sd(rng)
             sc_ = scen.sd_to_scenario(sd)
         modes = (0, 1, 0)
-        e = ex.explore(sd, sc_, modes, max_states)
+        e = ex.explore(sd, sc_, modes, max_states, rng=rng)
         tot_states += e["states"]
         tot_trans += e["transitions"]
         complete += int(e["complete"])
         recs = [r for r in e["records"] if not dyn.has_bad(r)]
+        revisits += e.get("revisited", 0)
         if len(recs) != len(e["records"]):
             viol.append(dict(kind="step-record", property=pid, failing_input_found=True, scenario=sd,
                              what="a state row of the implementation is not decodable with the documented layout",
@@ -253,7 +254,7 @@ def explore_part(ctx, spec, outcome, rng):
             continue
         sdw = scen.sd_wire(sd)
         mo, verdicts = run_driver([[5, sdw, list(modes), [[r[0], r[1], r[2]] for r in recs]], [3, sdw, recs]])
-        for r, m, v in zip(recs, mo, verdicts):
+        for ri, (r, m, v) in enumerate(zip(recs, mo, verdicts)):
             da = dyn.split_out([2, [r[3], None, r[6], r[7], r[4], r[5]], 0])
             db = dyn.split_out([2, m, 0])
             f = next((f for f in dyn.STEP_FIELDS if f in fields and f != "obs" and da.get(f) != db.get(f)), None)
@@ -262,18 +263,23 @@ def explore_part(ctx, spec, outcome, rng):
                 viol.append(dict(
                     kind="step-record", property=pid, failing_input_found=bool(rejected or f in spec.get("direct_fields", set())),
                     scenario=sd, modes=list(modes), record=r, field=f,
+                    own_history_flat_action_and_draw=e["own_history"][ri],
                     what=(f"monitor ok_{pid} rejects this implementation step (found by exhaustive exploration)"
                           if rejected else
-                          f"implementation and model disagree on '{f}' for this step (exhaustive exploration)"),
+                          f"implementation and model disagree on '{f}' for this step (exhaustive exploration)")
+                         + ("" if e["own_history"][ri] is None else
+                            "; the generative step was made after the environment's own episode (reset, then the real "
+                            "steps listed under own_history) -- from a fresh environment the same step is judged fine"),
                     broken=None if rejected else f"exhaustive per-step correspondence dyn/{pid}, field '{f}'",
                     impl=str(da.get(f))[:800] if f else None, model=str(db.get(f))[:800] if f else None,
                     verdicts=dict(zip(sorted(MONITOR_IDX), v))))
                 break
     outcome["correspondence"]["exhaustive_exploration"] = dict(
-        scenarios=nscen, complete_graphs=complete, states=tot_states, transitions=tot_trans, max_states=max_states)
+        scenarios=nscen, complete_graphs=complete, states=tot_states, transitions=tot_trans, max_states=max_states,
+        transitions_repeated_during_own_episodes=revisits)
     outcome["states"], outcome["transitions"] = tot_states, tot_trans
     outcome["exhaustive"] = bool(nscen) and complete == nscen
-    outcome["evaluations"] += tot_trans
+    outcome["evaluations"] += tot_trans + revisits
     rej = [v for v in viol if v["failing_input_found"]]
     return (rej or viol)[:3]
 
